@@ -318,3 +318,88 @@ Theorem loop_dead_iff_ping_failed tr s :
 Proof.
   intros R. apply (inv3_run tr pinit s); [|exact R]. split; simpl; intros; discriminate.
 Qed.
+
+(* ---------- invariant 4: a channel is closed at most once ---------- *)
+Definition inv4 (s : pstate) : Prop :=
+  Forall (fun c => (cown c <= 1)%nat /\ (cclosed c = false -> cown c = O)) (calls s) /\
+  (forall id k, In (id, k) (pmap s) -> exists c, nth_error (calls s) k = Some c /\ cid c = id /\ cclosed c = false).
+
+Lemma inv4_calls_upd (s : pstate) k f :
+  Forall (fun c => (cown c <= 1)%nat /\ (cclosed c = false -> cown c = O)) (calls s) ->
+  (forall c, cown (f c) = cown c /\ cclosed (f c) = cclosed c) ->
+  Forall (fun c => (cown c <= 1)%nat /\ (cclosed c = false -> cown c = O)) (upd_call (calls s) k f).
+Proof.
+  intros F Hf. apply upd_Forall; [exact F|]. intros c _ (A & B). destruct (Hf c) as (E1 & E2). rewrite E1, E2. auto.
+Qed.
+
+Lemma inv4_map_upd (s : pstate) k f m' :
+  (forall id j, In (id, j) (pmap s) -> exists c, nth_error (calls s) j = Some c /\ cid c = id /\ cclosed c = false) ->
+  (forall c, cid (f c) = cid c /\ cclosed (f c) = cclosed c) ->
+  (forall p, In p m' -> In p (pmap s)) ->
+  forall id j, In (id, j) m' -> exists c, nth_error (upd_call (calls s) k f) j = Some c /\ cid c = id /\ cclosed c = false.
+Proof.
+  intros I Hf Hm id j Hin. destruct (I id j (Hm _ Hin)) as (c & E & C & D).
+  destruct (Nat.eq_dec j k) as [->|N].
+  - exists (f c). destruct (Hf c) as (E1 & E2). split; [apply upd_same; exact E|]. rewrite E1, E2. auto.
+  - exists c. split; [rewrite upd_other by exact N; exact E|auto].
+Qed.
+
+Lemma inv4_step s e s' : inv4 s -> pstep s e = Some s' -> inv4 s'.
+Proof.
+  unfold inv4. intros (F & M) H. destruct e as [id bl|k ok|id|k|k ok]; simpl in H.
+  - destruct (bl && _); [discriminate|]. inversion H; subst; clear H. simpl. split.
+    + apply Forall_app. split; [exact F|]. constructor; [|constructor]. simpl. auto.
+    + intros id' j [Hin|Hin].
+      * inversion Hin; subst. eexists. split; [rewrite nth_error_app2 by lia; rewrite Nat.sub_diag; reflexivity|]. simpl. auto.
+      * apply pdel_in in Hin. destruct (M id' j (proj1 Hin)) as (c & E & C & D). exists c. split; [|auto].
+        rewrite nth_error_app1; [exact E|apply nth_error_Some; congruence].
+  - destruct (nth_error (calls s) k) as [c|] eqn:E; [|discriminate].
+    destruct (stage_eqb (cstage c) Reg); [|discriminate]. destruct ok.
+    + inversion H; subst; clear H. simpl. split.
+      * apply inv4_calls_upd; [exact F|intros; split; reflexivity].
+      * intros id j Hin. eapply (inv4_map_upd s k _ _ M); [intros; split; reflexivity| |exact Hin]. intros p Hp; exact Hp.
+    + destruct (loop_after s k false). inversion H; subst; clear H. simpl. split.
+      * apply inv4_calls_upd; [exact F|intros; split; reflexivity].
+      * intros id j Hin. eapply (inv4_map_upd s k _ _ M); [intros; split; reflexivity| |exact Hin].
+        intros p Hp. apply pdel_in in Hp. tauto.
+  - destruct (pget id (pmap s)) as [k|] eqn:G; inversion H; subst; clear H; [|split; assumption]. simpl.
+    apply pget_in in G. destruct (M id k G) as (ck & Ek & Ck & Dk). split.
+    + apply upd_Forall; [exact F|]. intros c E0 (A & B). rewrite Ek in E0. inversion E0; subst c.
+      simpl. rewrite (B Dk). split; [lia|discriminate].
+    + intros id' j Hin. apply pdel_in in Hin. destruct Hin as (Hin & Nid). simpl in Nid.
+      destruct (M id' j Hin) as (c & E & C & D). exists c. split; [|auto].
+      rewrite upd_other; [exact E|]. intros ->. rewrite Ek in E. inversion E; subst. congruence.
+  - destruct (nth_error (calls s) k) as [c|]; [|discriminate]. inversion H; subst; clear H. simpl. split.
+    + apply inv4_calls_upd; [exact F|intros; split; reflexivity].
+    + intros id j Hin. eapply (inv4_map_upd s k _ _ M); [intros; split; reflexivity| |exact Hin]. intros p Hp; exact Hp.
+  - destruct (nth_error (calls s) k) as [c|] eqn:E; [|discriminate].
+    destruct (stage_eqb (cstage c) Sent && _); [|discriminate].
+    destruct (loop_after s k ok). inversion H; subst; clear H. simpl. split.
+    + apply inv4_calls_upd; [exact F|intros; split; reflexivity].
+    + intros id j Hin. eapply (inv4_map_upd s k _ _ M); [intros; split; reflexivity| |exact Hin].
+      intros p Hp. apply pdel_in in Hp. tauto.
+Qed.
+
+Lemma inv4_run tr : forall s s', inv4 s -> prun s tr = Some s' -> inv4 s'.
+Proof.
+  induction tr as [|e t IH]; intros s s' I H; simpl in H.
+  - inversion H; subst; exact I.
+  - destruct (pstep s e) as [s1|] eqn:E; [|discriminate]. eapply IH; [|exact H]. eapply inv4_step; eassumption.
+Qed.
+
+(* handlePong closes a call's channel at most once, over all event sequences (a second close
+   would panic the read path) *)
+Theorem no_double_close tr s k c :
+  prun pinit tr = Some s -> nth_error (calls s) k = Some c -> (cown c <= 1)%nat.
+Proof.
+  intros R E. assert (I : inv4 s).
+  { eapply inv4_run; [|exact R]. split; [constructor|intros id j []]. }
+  destruct I as (F & _). rewrite Forall_forall in F. apply nth_error_In in E. apply (F c E).
+Qed.
+
+(* equal random ping ids: call 0's return removes the entry that call 1 registered under the
+   same id, so call 1's own pong no longer reaches it (it can only end with its context) *)
+Lemma equal_ids_strand :
+  exists s c, prun pinit [EStart 7 false; EStart 7 false; EWrite 0 true; EWrite 1 true; ECtx 0; ERet 0 false; EPong 7] = Some s /\
+              pmap s = [] /\ nth_error (calls s) 1 = Some c /\ cstage c = Sent /\ cclosed c = false.
+Proof. eexists. eexists. split; [vm_compute; reflexivity|]. repeat split. Qed.
